@@ -29,8 +29,9 @@ theorem topTextB_sound (n : Text.WNet) (T : Text.WDef) (h : topTextB n T = true)
     · intro r hr; rw [hr] at a; simpa using a
     · intro e; rw [e] at b; simp at b
 
-/-- the fragment of the end-to-end theorem in structural form (decidable; no run of writer or lexer over the whole
-    text): the netlist clauses (`fragC04`, `topTextB`, `fileOK`), the per-token clauses of the written module (`tokOK`),
+/-- the fragment of the end-to-end theorem in structural form (decidable; no run of writer or lexer over the WHOLE
+    text — a closed-form reader run over the module (`buildWI`, inside `fragC04`) and a lexer run per piece (`Piece.ok`)
+    remain inside the predicate): the netlist clauses (`fragC04`, `topTextB`, `fileOK`), the per-token clauses of the written module (`tokOK`),
     and per PIECE of the rendering: its own lexing check (`Piece.ok`), and that no word runs into the next piece (`adjOK`) -/
 def fragStruct (n : Text.WNet) (T : Text.WDef) (kT : Nat) : Bool :=
   match astOf n T with
@@ -48,7 +49,8 @@ theorem ports_dir_of_tokOK (m : WModP) (h : tokOK m.toI = true) : ∀ p ∈ m.po
   simp only [SItem.ok, portOK, Bool.and_eq_true, bne_iff_ne, ne_eq] at this
   exact this.1.1.1
 
-/-- **c04_text_struct.**  `readV (composeV n) ≈ n` for every netlist that satisfies the structural fragment predicate. -/
+/-- **c04_text_struct.**  The top module's view is preserved by write-then-read (`write_blackbox=False`) for every netlist that
+    satisfies the structural fragment predicate.  What the conclusion does not say: see `c04_view` and docs/verilog.md §2a. -/
 theorem c04_text_struct (n : Text.WNet) (T : Text.WDef) (kT : Nat) (hT : n.defs.getD kT default = T)
     (h : fragStruct n T kT = true) :
     ∃ text fin s D ls, Text.composeV n optsFrag = .ok (text, fin) ∧ Parse.readV text = .ok s ∧ s.defs = D :: ls ∧
